@@ -50,7 +50,7 @@ double complex vnadata_get_fz0(const vnadata_t *vdp, int findex, int port)
 	return HUGE_VAL;
     }
     ports = MAX(vdp->vd_rows, vdp->vd_columns);
-    if (port < 0 || port > ports) {
+    if (port < 0 || port >= ports) {
 	_vnadata_error(vdip, VNAERR_USAGE,
 		"vnadata_get_fz0: port index: %d: out of bounds", port);
 	return HUGE_VAL;
